@@ -356,4 +356,65 @@ theorem quotedString_unterminated (q : UInt8) (hq : q = 34 ∨ q = 39) (body : B
       simp only [a, if_true, hnone]
     · exact absurd b h
 
+/-! ### a String item is a closed literal -/
+
+theorem escLoop_closed (q : UInt8) (k : Nat) (r acc : Bytes) (n : Nat) (t : Bytes) (m : Nat)
+    (h : escLoop q k r acc n = some (t, m)) : rd (r.getD (m - n - 1) 0) = q := by
+  induction r generalizing k acc n with
+  | nil => simp [escLoop] at h
+  | cons c r ih =>
+    have step : ∀ k' acc', escLoop q k' r acc' (n + 1) = some (t, m) →
+        rd ((c :: r).getD (m - n - 1) 0) = q := by
+      intro k' acc' h'
+      have hb := escLoop_bounds _ _ _ _ _ _ _ h'
+      have := ih k' acc' (n + 1) h'
+      have e : m - n - 1 = (m - (n + 1) - 1) + 1 := by omega
+      rw [e, List.getD_cons_succ]; exact this
+    cases k with
+    | succ k => simp only [escLoop] at h; exact step _ _ h
+    | zero =>
+      simp only [escLoop] at h
+      split at h
+      · rename_i hq
+        simp only [Option.some.injEq, Prod.mk.injEq] at h
+        have : m - n - 1 = 0 := by omega
+        rw [this]; simpa using hq
+      · split at h
+        · exact step _ _ h
+        · exact step _ _ h
+
+theorem quotedString_closed (q : UInt8) (hq : q = 34 ∨ q = 39) (body t : Bytes) (n : Nat)
+    (h : quotedString (q :: body) q = (⟨"String", t⟩, n)) :
+    2 ≤ n ∧ n ≤ body.length + 1 ∧ (q :: body).getD (n - 1) 0 = q := by
+  unfold quotedString at h
+  simp only [List.tail_cons, List.length_cons] at h
+  by_cases h1 : spanWhile (fun c => c != 92 && c != q) body ≥ body.length
+  · simp only [h1, if_true, Prod.mk.injEq, Item.mk.injEq] at h
+    exact absurd h.1.1 (by decide)
+  · simp only [h1, if_false] at h
+    by_cases h2 : body.getD (spanWhile (fun c => c != 92 && c != q) body) 0 = 92
+    · simp only [h2, if_true] at h
+      cases he : escLoop q 0 body [] 1 with
+      | none =>
+        rw [he] at h
+        simp only [Prod.mk.injEq, Item.mk.injEq] at h
+        exact absurd h.1.1 (by decide)
+      | some tn =>
+        obtain ⟨t', m⟩ := tn
+        rw [he] at h
+        simp only [Prod.mk.injEq, Item.mk.injEq, true_and] at h
+        obtain ⟨_, rfl⟩ := h
+        have hb := escLoop_bounds _ _ _ _ _ _ _ he
+        have hc := escLoop_closed _ _ _ _ _ _ _ he
+        refine ⟨by omega, by omega, ?_⟩
+        have e : m - 1 = (m - 1 - 1) + 1 := by omega
+        rw [e, List.getD_cons_succ]
+        exact (rd_eq_quote q hq _).mp hc
+    · simp only [h2, if_false, Prod.mk.injEq, Item.mk.injEq, true_and] at h
+      obtain ⟨_, rfl⟩ := h
+      refine ⟨by omega, by omega, ?_⟩
+      rcases scan_stop q body (by omega) with a | ⟨a, _⟩
+      · exact absurd a h2
+      · simpa using a
+
 end Gsu.Display
